@@ -857,7 +857,7 @@ func main() {
 			structured(h, false, maxProm, r)
 		}
 		// 3. random documents with 2-5 roots; one in six is a query
-		n := 6000
+		n := 40000
 		if h.Thorough() {
 			n = 250000
 		}
